@@ -205,9 +205,9 @@ func runCheck(prop, tier, repo, overlayFile, only string, writeEvidence, keep, v
 		reports = append(reports, giReps...)
 	}
 
-	timeout := 20 // quick: 3 s for the default solver, then all configurations raced for 20 s
+	timeout := 45 // quick: 3 s for the default solver (sliced, then full), then all configurations raced for 45 s
 	if tier == "thorough" {
-		timeout = 120
+		timeout = 180
 	}
 	workdir := filepath.Join(verifRoot, ".work", fmt.Sprintf("%s-%d", prop, os.Getpid()))
 	os.RemoveAll(workdir)
